@@ -227,7 +227,9 @@ func normaliseHelpers(dir, tags string, env []string, baseline map[string]bool) 
 			if rerr != nil {
 				continue
 			}
-			if out, n := unnameResults(p.Fset, f, src); n > 0 {
+			pkgPath := p.PkgPath
+			isNewFunc := func(fd *ast.FuncDecl) bool { return !baseline[funcIdent(pkgPath, fd)] }
+			if out, n := unnameResults(p.Fset, f, src, isNewFunc); n > 0 {
 				overlay[name] = out
 				notes = append(notes, fmt.Sprintf("%s: named results of %d function(s) spelled out as locals", strings.TrimPrefix(name, dir+"/"), n))
 			}
@@ -1442,7 +1444,7 @@ func loadFieldBaseline() map[string]string {
 // mentions a result name: the names leave the signature, become locals declared on the line of the
 // opening brace, and every bare `return` lists them. Line numbers are unchanged. Returns the new
 // source and the number of functions rewritten.
-func unnameResults(fset *token.FileSet, f *ast.File, src []byte) ([]byte, int) {
+func unnameResults(fset *token.FileSet, f *ast.File, src []byte, isNewFunc func(*ast.FuncDecl) bool) ([]byte, int) {
 	type edit struct {
 		from, to int
 		text     string
@@ -1454,6 +1456,44 @@ func unnameResults(fset *token.FileSet, f *ast.File, src []byte) ([]byte, int) {
 		fd, ok := d.(*ast.FuncDecl)
 		if !ok || fd.Body == nil || fd.Type.Results == nil {
 			continue
+		}
+		// a flag helper new to the tree written as a cascade (`if a { return true }; if b { return true };
+		// return c`) is spelled as one expression (`return a || b || c`): expanded in place, its tests
+		// are then ordinary short-circuit branches the path rules can follow
+		if isNewFunc != nil && isNewFunc(fd) && len(fd.Type.Results.List) == 1 && len(fd.Type.Results.List[0].Names) == 0 {
+			if id, isId := fd.Type.Results.List[0].Type.(*ast.Ident); isId && id.Name == "bool" {
+				list := fd.Body.List
+				k := len(list) - 1
+				if last, isRet := list[k].(*ast.ReturnStmt); k >= 1 && isRet && len(last.Results) == 1 {
+					acc := "(" + string(src[off(last.Results[0].Pos()):off(last.Results[0].End())]) + ")"
+					first := k
+					for i := k - 1; i >= 0; i-- {
+						ifs, isIf := list[i].(*ast.IfStmt)
+						if !isIf || ifs.Init != nil || ifs.Else != nil || len(ifs.Body.List) != 1 {
+							break
+						}
+						rs, isR := ifs.Body.List[0].(*ast.ReturnStmt)
+						if !isR || len(rs.Results) != 1 {
+							break
+						}
+						lit, isL := rs.Results[0].(*ast.Ident)
+						if !isL || (lit.Name != "true" && lit.Name != "false") {
+							break
+						}
+						cond := "(" + string(src[off(ifs.Cond.Pos()):off(ifs.Cond.End())]) + ")"
+						if lit.Name == "true" {
+							acc = "(" + cond + " || " + acc + ")"
+						} else {
+							acc = "(!" + cond + " && " + acc + ")"
+						}
+						first = i
+					}
+					if first < k {
+						edits = append(edits, edit{off(list[first].Pos()), off(last.End()), "return " + acc})
+						n++
+					}
+				}
+			}
 		}
 		var names []string
 		named := false
